@@ -242,7 +242,12 @@ BAD = {
            '2024 Apr 1 25:00 / 2025-01-01 8:00',
            # digits glued to both sides of a removed part (month name, year, time of day)
            '1jul20285 8:00 / 2029-01-01 8:00', '1 jan 2018:0028 / 2029-01-01 8:00',
-           '2jul5 2028 8:00 / 2029-01-01 8:00', '1 2028 jul 1 8:00 / 2029-01-01 8:00'],
+           '2jul5 2028 8:00 / 2029-01-01 8:00', '1 2028 jul 1 8:00 / 2029-01-01 8:00',
+           # text left over after a YYYY-MM-DD date and its time of day
+           '2028-07-20 8:00 pm / 2029-01-01 8:00', '2028-07-20 08:00Z / 2029-01-01 8:00',
+           '2028-07-20 08:00 +02:00 / 2029-01-01 8:00', '2028-07-20 8:00 1 / 2029-01-01 8:00',
+           '2028-07-20 2028-07-21 8:00 / 2029-01-01 8:00', '2028-jul-20 8:00 x / 2029-01-01 8:00',
+           '2001-01-01 0:00 - 2002-01-01 0:00 / 2999-01-01 0:00'],
 }
 
 
